@@ -467,6 +467,7 @@ def run(ctx):
     record_fetcher(ctx, fet)
     handout(ctx, fet)
     who(ctx, ann, fet)
+    driver_order(ctx)
 
 
 # ------------------------------------------------------------------ rules
@@ -1034,3 +1035,25 @@ def who(ctx, ann, fet):
             sites.append((fn, bb, j))
     rules.who(ctx, "who:Fetcher.results", "write of the fetcher's results", sites, [F + r"(new|fetch_complete|fetch_failed)$"], db=db)
     ctx.floor("who:Fetcher.results", len(sites), 2, "writes of the fetch results")
+
+
+def driver_order(ctx):
+    """The announcer only learns that a seed synced from `RefsSynced` events.  `Node::announce` therefore subscribes to the
+    node's events *before* it asks the node to announce: a seed that syncs between the announcement and a later
+    subscription is never reported, and the announcer times out although its target was met."""
+    db = ctx.db
+    fn = db.one(r"^radicle::node::Node::announce$")
+    if fn is None:
+        ctx.ob("announcer:order:subscribe-first", "inconclusive", "Node::announce (the driver of the announcer) was not found", "")
+        return
+    g = graph(fn)
+    sub = [bb for bb, t, c in db.calls(fn) if re.search(r"Handle>?::subscribe$", c.get("n") or "")]
+    ann = [bb for bb, t, c in db.calls(fn) if re.search(r"Handle>?::announce_refs$", c.get("n") or "")]
+    syn = [bb for bb, t, c in db.calls(fn) if (c.get("n") or "").endswith("Announcer::synced_with")]
+    if not sub or not ann or not syn:
+        ctx.ob("announcer:order:subscribe-first", "inconclusive", "Node::announce no longer has the subscribe / announce_refs / synced_with shape", rules.where(fn), fn=fn)
+        return
+    ok = all(any(g.dominates(s, a) for s in sub) for a in ann)
+    ctx.check("announcer:order:subscribe-first", ok,
+              "the driver subscribes to the node's events before it triggers the announcement, so no sync event can fall between the two "
+              "(a missed event makes the announcer report a timeout although the target was met)", rules.where(fn, ann[0]), fn=fn)
